@@ -24,6 +24,9 @@ J(res) == IF res.err = "none" THEN [e |-> "none", k |-> res.log, a |-> res.b1, b
 Same(x, o) == DOMAIN x \subseteq DOMAIN o /\ x = [f \in DOMAIN x |-> o[f]]
               /\ (x.e # "none" => o.e = x.e)
               /\ (x.e = "none" => o.v = TRUE)          \* the returned object passes is_valid() (C11)
+(* the error a reader-based entry point returns IS the wrapped error: `Error::source()` leads to
+   an error of the same kind and text (I/O) or the equal generator error; no source otherwise *)
+SrcOK(r) == r.src = (IF r.e = "io" THEN "io" ELSE IF r.e \in {"none", "panic"} THEN "" ELSE "gen")
 Warn(g) == G!SzLT(IF g.fixed # G!NoSize THEN g.fixed ELSE g.ref.size, <<0, 4097>>)
 
 (* L2 in lock-step: the slice forms (update, += slice, += array) add the whole length up front,
@@ -91,7 +94,7 @@ EvSame == /\ Ev("same")
    before it reported end of file (used only when no error is expected); E.n = payload length *)
 EvStream == /\ Ev("stream")
             /\ LET w == S!WalkB(E.script, 1, 0, E.n, E.bl) IN       \* E.bl: the buffer length the reader saw
-               Expect(/\ E.bl > 0 /\ E.reads = w.reads /\ E.reads_after_error = 0
+               Expect(/\ E.bl > 0 /\ E.reads = w.reads /\ E.reads_after_error = 0 /\ SrcOK(E.r)
                       /\ IF w.io THEN E.r.e = "io" /\ E.r.kind = w.kind /\ E.r.id = w.id
                          ELSE /\ gens[E.g].ref.size = G!SzOf(w.pos)
                               /\ Same(J(G!RFin(gens[E.g].ref, TRUE, FALSE)), E.r),
@@ -101,7 +104,7 @@ EvStream == /\ Ev("stream")
 EvStreamZeros == /\ Ev("streamzeros")
                  /\ Expect(IF E.fail THEN E.r.e = "io" /\ E.r.kind = "Other" /\ E.r.id = 77
                            ELSE Same(J(G!RFin(ZerosState(E.n).ref, TRUE, FALSE)), E.r), <<l, "streamzeros">>)
-                 /\ Expect(E.reads_after_end = 0, <<l, "streamzeros-reads-after-end">>)
+                 /\ Expect(E.reads_after_end = 0 /\ SrcOK(E.r), <<l, "streamzeros-reads-after-end">>)
                  /\ UNCHANGED gens /\ Done
 (* C18: hash_file.  what: regular | missing | dir | special (metadata size may differ from
    what is delivered: FIFO, procfs).  E.g holds the delivered bytes when a hash is expected *)
@@ -110,6 +113,7 @@ EvFile == /\ Ev("file")
                       [] E.meta # E.delivered -> E.r.e = "Mismatch"
                       [] OTHER -> gens[E.g].ref.size = E.delivered /\ Same(J(G!RFin(gens[E.g].ref, TRUE, FALSE)), E.r),
                     <<l, "file", E.what>>)
+          /\ Expect(SrcOK(E.r), <<l, "file-error-source">>)
          /\ UNCHANGED gens /\ Done
 (* libfuzzy's own test vectors against the SPECIFICATION: flags 1 = truncated, 2 = not truncated,
    4 = the expected text is the run-collapsed hash *)
